@@ -3,6 +3,7 @@ import SphericalVerif.Props.HKernel
 import SphericalVerif.Props.GenH
 import SphericalVerif.Props.GenHorner
 import SphericalVerif.Props.Footprint
+import SphericalVerif.Props.GenMethod
 #print axioms C09.objd_pure
 #print axioms C09.objD_pure
 #print axioms C09.objY_pure
@@ -35,3 +36,18 @@ import SphericalVerif.Props.Footprint
 #print axioms Footprint.rotH_only
 #print axioms Footprint.wigner_H_only
 #print axioms Footprint.gen_D_chain_inplace
+#print axioms GenMethod.cpow_one
+#print axioms GenMethod.half_double
+#print axioms GenMethod.D_rotor_eq
+#print axioms GenMethod.frdC_after_H
+#print axioms GenMethod.sYlm_rotor_eq
+#print axioms GenMethod.evaluate_rotor_eq
+#print axioms GenMethod.rotate_rotor_eq
+#print axioms GenMethod.D_rotor_only
+#print axioms GenMethod.sYlm_rotor_only
+#print axioms GenMethod.evaluate_rotor_only
+#print axioms GenMethod.rotate_rotor_only
+#print axioms GenMethod.D_rotor_doc
+#print axioms GenMethod.sYlm_rotor_doc
+#print axioms GenMethod.evaluate_rotor_doc
+#print axioms GenMethod.rotate_rotor_doc
